@@ -24,6 +24,7 @@ REVERTS = [
     ("C17_revertfix_F15", "fspread localisation calls"), ("C17_revertfix_F16", "bound the OAS shrinkage"),
     ("C17_revertfix_F17", "scores queries near a grid point"), ("C03_revertfix_F18", "PCovR with regressor='precomputed' accepts"),
     ("C05_revertfix_F19", "KernelPCovR with regressor='precomputed' handles"),
+    ("C19_revertfix_F20", "ignores numerically vertical facets"),
 ]
 for _n, _g in REVERTS:
     MUTANTS.append((_n, "@revert", _g, ""))
